@@ -368,3 +368,47 @@ Theorem C03_generate_index_from_file_valid :
     = Ok (idx_load_with srt (section_recs o (hlen roots) bs) i0).
 Proof. exact generate_index_from_file_valid. Qed.
 Print Assumptions C03_generate_index_from_file_valid.
+
+(* ---- (9) ApplyOptions: the option plumbing shared by every entry point ---------------------------------------
+   [apply_options l] (theories/Options.v): options applied in order, then zero IndexCodec /
+   MaxIndexCidSize replaced by their defaults and MaxIndexCidSize capped at an index record's capacity. *)
+From GoCar Require Import Options.
+From GoCarProofs Require Import OptionsFacts.
+
+(* zero => default: whatever the list, the resolved IndexCodec is never 0 and MaxIndexCidSize is in
+   (0, 32 MiB - 8]; an explicit zero gives exactly the default.  (A zero MaxAllowedHeaderSize /
+   MaxAllowedSectionSize is NOT replaced: it stays 0.) *)
+Theorem C03_apply_options_zero_means_default :
+  forall l,
+    op_index_codec (apply_options l) <> 0 /\
+    0 < op_max_index_cid (apply_options l) <= opt_max_indexable_cid /\
+    op_index_codec (apply_options (l ++ [OUseIndexCodec 0])) = opt_default_codec /\
+    op_max_index_cid (apply_options (l ++ [OMaxIndexCidSize 0])) = opt_default_max_cid /\
+    op_max_header (apply_options (l ++ [OMaxAllowedHeaderSize 0])) = 0 /\
+    op_max_section (apply_options (l ++ [OMaxAllowedSectionSize 0])) = 0.
+Proof. exact apply_options_zero_means_default. Qed.
+Print Assumptions C03_apply_options_zero_means_default.
+
+(* a later option for the same field wins; options for distinct fields commute *)
+Theorem C03_apply_options_later_wins :
+  forall l1 a b l2, opt_field a = opt_field b ->
+    apply_options (l1 ++ a :: b :: l2) = apply_options (l1 ++ b :: l2).
+Proof. exact apply_options_later_wins. Qed.
+Print Assumptions C03_apply_options_later_wins.
+
+Theorem C03_apply_options_order_insensitive_for_distinct_fields :
+  forall l1 a b l2, opt_field a <> opt_field b ->
+    apply_options (l1 ++ a :: b :: l2) = apply_options (l1 ++ b :: a :: l2).
+Proof. exact apply_options_distinct_fields_commute. Qed.
+Print Assumptions C03_apply_options_order_insensitive_for_distinct_fields.
+
+(* idempotent: passing the same options a second time changes nothing, and resolving is a projection *)
+Theorem C03_apply_options_idempotent :
+  forall l, apply_options (l ++ l) = apply_options l.
+Proof. exact apply_options_idempotent. Qed.
+Print Assumptions C03_apply_options_idempotent.
+
+Theorem C03_apply_options_finalize_idempotent :
+  forall r, options_finalize (options_finalize r) = options_finalize r.
+Proof. exact options_finalize_idempotent. Qed.
+Print Assumptions C03_apply_options_finalize_idempotent.
